@@ -134,6 +134,7 @@ type caseSpec struct {
 	PermSeed uint64        `json:"permSeed"`
 	Conc     int           `json:"conc"`
 	Raw      bool          `json:"raw"` // ExtendedCopyGraph reads the store directly (map order of Predecessors)
+	Custom   int           `json:"custom"`  // > 0 (local sources): opts.FindPredecessors is set by the caller before the filters: 1 reversed + plain descriptors, 2 drops a third of the predecessors
 	Fault    int           `json:"fault"`   // > 0: one more ExtendedCopyGraph in which the Fault-th source operation fails
 	Prefill  int           `json:"prefill"` // > 0: the destination starts with a link-closed subset (density in %) of the graph
 	StartStyle int         `json:"startStyle"` // descriptor style of the given node passed to findRoots / ExtendedCopyGraph
@@ -235,11 +236,25 @@ func keepTruth(g *dag.Graph, p *dag.Node, fs []compiled) bool {
 // relation is the referrers (subject) relation only.
 var remoteTruth bool
 
+// curGraph / curSpec: the case under way (cases run one after the other)
+var curGraph *dag.Graph
+var curSpec *caseSpec
+
 func isRemote(kind string) bool { return strings.HasPrefix(kind, "remote") }
 
 // truePreds is the source's predecessor relation by the generator's edge list.
 func truePreds(g *dag.Graph, x int) []int {
 	if !remoteTruth {
+		if curSpec != nil && curSpec.Custom == 2 {
+			// the relation the caller's FindPredecessors defines
+			var out []int
+			for _, p := range g.Preds(x) {
+				if !customDrop(curSpec, p) {
+					out = append(out, p)
+				}
+			}
+			return out
+		}
 		return g.Preds(x)
 	}
 	var out []int
@@ -622,9 +637,44 @@ func nodesTok(g *dag.Graph, served map[int][]ocispec.Descriptor, rec *recSrc) st
 
 // ---------------------------------------------------------------- options
 
+// customDrop: the caller's FindPredecessors of variant 2 leaves this predecessor out
+func customDrop(spec *caseSpec, p int) bool {
+	return spec.Custom == 2 && (uint64(p)+spec.PermSeed)%3 == 0
+}
+
+// customFP is a caller-supplied FindPredecessors: the store's predecessors, some dropped,
+// reversed, stripped to plain descriptors (variant 1) -- a function of the store's answer only.
+func customFP(spec *caseSpec, g *dag.Graph) func(context.Context, content.ReadOnlyGraphStorage, ocispec.Descriptor) ([]ocispec.Descriptor, error) {
+	byKey := map[string]int{}
+	for _, n := range g.Nodes {
+		byKey[keyOf(n.Desc)] = n.ID
+	}
+	return func(ctx context.Context, src content.ReadOnlyGraphStorage, d ocispec.Descriptor) ([]ocispec.Descriptor, error) {
+		ps, err := src.Predecessors(ctx, d)
+		if err != nil {
+			return nil, err
+		}
+		var out []ocispec.Descriptor
+		for i := len(ps) - 1; i >= 0; i-- {
+			p := ps[i]
+			if id, ok := byKey[keyOf(p)]; ok && customDrop(spec, id) {
+				continue
+			}
+			if spec.Custom == 1 {
+				p = ocispec.Descriptor{MediaType: p.MediaType, Digest: p.Digest, Size: p.Size}
+			}
+			out = append(out, p)
+		}
+		return out, nil
+	}
+}
+
 func buildOpts(spec *caseSpec, fs []compiled) oras.ExtendedCopyGraphOptions {
 	opts := oras.ExtendedCopyGraphOptions{Depth: spec.Limit}
 	opts.Concurrency = spec.Conc
+	if spec.Custom > 0 && curGraph != nil {
+		opts.FindPredecessors = customFP(spec, curGraph)
+	}
 	for _, f := range fs {
 		if f.spec.Kind == "A" {
 			opts.FilterArtifactType(f.re)
@@ -770,6 +820,27 @@ func runCase(spec *caseSpec) {
 			}
 		}
 	}
+	if spec.Custom > 0 && !remoteTruth {
+		// from here on the followed relation is the one the caller's FindPredecessors defines:
+		// the model is given ITS output as the table (lister token "c": every filter takes the
+		// generic branch), the oracle applies the same drop rule to the generator's edge list
+		curGraph, curSpec = g, spec
+		defer func() { curGraph, curSpec = nil, nil }()
+		cf := customFP(spec, g)
+		for _, n := range g.Nodes {
+			if n.Foreign() {
+				continue
+			}
+			ps, err := cf(ctx, rec, n.Desc)
+			if err != nil {
+				fail("unexpected-error", fmt.Sprintf("custom FindPredecessors(%d): %v", n.ID, err))
+				return
+			}
+			served[n.ID] = ps
+		}
+		lister = "c"
+		run.Count(fmt.Sprintf("custom-find-predecessors=%d", spec.Custom))
+	}
 	if rec.bad != "" {
 		// the source serves (or is asked for) something that is no node of the graph: a wrong
 		// predecessor descriptor would be walked / copied by ExtendedCopy
@@ -857,7 +928,7 @@ func runCase(spec *caseSpec) {
 
 	// ---- findRoots with the k-th source operation failing (hook), against the model's find_roots_e:
 	// the error must surface at exactly that operation, a success must be the fault-free root set
-	if spec.Fault > 0 && err == nil {
+	if spec.Fault > 0 && err == nil && lister != "c" {
 		kk := 1 + spec.Fault%(counter.ops+2) // counter.ops+1 and beyond: never reached
 		fsrc := &faultSrc{ReadOnlyGraphStorage: hookSrc, countdown: kk}
 		var src content.ReadOnlyGraphStorage = fsrc
@@ -1369,6 +1440,9 @@ func randomSpec(r *common.Rand, g *dag.Graph) *caseSpec {
 		spec.Prefill = common.Pick(r, []int{10, 30, 60})
 	}
 	spec.StartStyle = r.Intn(3)
+	if !isRemote(spec.Src) && r.Chance(1, 6) {
+		spec.Custom = 1 + r.Intn(2)
+	}
 	spec.Filters = randomFilters(r)
 	if r.Chance(1, 3) || (len(spec.Filters) > 0 && r.Chance(1, 3)) {
 		spec.Fault = 1 + r.Intn(60)
@@ -1475,6 +1549,8 @@ func coverageFloors() {
 	need("referrers-by-type", 100)
 	need("fault=hit", 50)
 	need("findRoots-fault=error", 50)
+	need("custom-find-predecessors=1", 30)
+	need("custom-find-predecessors=2", 30)
 	need("fault=error-surfaced", 50)
 	need("dst=prefilled", 100)
 	need("filters=1", 300)
